@@ -15,6 +15,7 @@ import (
 	"unicode/utf8"
 
 	zlint "github.com/zmap/zlint/v3"
+	"github.com/zmap/zlint/v3/formattedoutput"
 	"github.com/zmap/zlint/v3/lint"
 )
 
@@ -53,6 +54,24 @@ func subCodec(out string, seed uint64, tier string, arg string) {
 		rep.distinctKey(line)
 		rep.sample(map[string]string{"op": line, "impl": res})
 	}
+	// the other consumers of the status tables run first: a summary table is printed (to /dev/null) for a result set with every
+	// level, so that whatever they do to shared label tables is in place before the codec is exercised
+	func() {
+		devnull, err := os.OpenFile(os.DevNull, os.O_WRONLY, 0)
+		if err != nil {
+			return
+		}
+		saved := os.Stdout
+		os.Stdout = devnull
+		defer func() { os.Stdout = saved; devnull.Close(); recover() }()
+		rs := &zlint.ResultSet{Version: 3, Results: map[string]*lint.LintResult{}}
+		for i, st := range []lint.LintStatus{lint.NA, lint.NE, lint.Pass, lint.Notice, lint.Warn, lint.Error, lint.Fatal} {
+			rs.Results[fmt.Sprintf("e_summary_probe_%d", i)] = &lint.LintResult{Status: st}
+		}
+		formattedoutput.OutputSummary(rs, false)
+		formattedoutput.OutputSummary(rs, true)
+		rep.count("summary-printed-first")
+	}()
 	// encode
 	for s := -3; s <= 12; s++ {
 		b, err := json.Marshal(lint.LintStatus(s))
